@@ -6,7 +6,7 @@ import vlib
 from vlib import Report, ToolError, log
 
 PID = "C08"
-ENGINES = ["pmmrstore", "crash"]
+ENGINES = ["pmmrstore", "crash", "chain"]
 ACTIONS = ["Begin", "Rewind", "Append", "Remove", "Commit", "Discard", "Compact", "Reopen"]
 SPEC_ACTIONS = ["Begin", "DoRewind", "AppendLeaf", "DoRemove", "Commit", "Discard", "DoCompact", "Reopen"]
 VARIANTS = [("fixed", "single"), ("fixed", "steps"), ("var", "single"), ("var", "steps")]
@@ -215,10 +215,25 @@ def run(tier, replay):
             rep.violation("pmmrstore:chain:compact_reorg:%s" % pr["what"].split(":")[-1], {"kind": "compact_reorg", "blocks": nb, "depth": dep, "problem": pr, "spent_old": o["spent_old"]},
                           json.dumps(pr)[:300])
 
+    # Chain.tla with the Compact action: TLC-simulated behaviours over an 85-block trunk that has a spend every
+    # 4th block (compaction really prunes), forks inside the horizon spending old / already pruned outputs,
+    # Compact and Reopen interleaved with block, header and header-batch deliveries; every step's projection
+    # (head, unspent set with positions, stored bodies, tail, sums) compared on the real chain, roots against
+    # a never-compacted twin
+    import chainlib
+    cbehs, _ = chainlib.gen_sim("mc/MC_Chain_simemit_compact", 40 if thorough else 10, vlib.seed(), workers=8 if thorough else 5, depth=60, timeout=1800)
+    cres = chainlib.replay(PID, cbehs, procs=10 if thorough else 5, twin=True, deep=thorough, tag="compactsim")
+    cstats = chainlib.report_results(rep, cbehs, cres)
+    compact_effective = sum(1 for b in cbehs if any(s["k"] == "Compact" and s["proj"]["tail"] > 1 for s in b["steps"]))
+    if compact_effective == 0:
+        raise ToolError("no generated behaviour contains an effective compaction")
+
     rep.coverage = {
         "states": states, "transitions": trans,
         "chain_level_compaction_reorg": chain_level,
-        "traces_validated_against_impl": replayed + len(traces),
+        "chain_model_compaction": {"config": "mc/MC_Chain_simemit_compact", "behaviours": len(cbehs), "with_effective_compaction": compact_effective,
+                                   "steps": cstats["steps"], "twin_root_comparisons": cstats["twin_checked"], "step_classes": cstats["classes"]},
+        "traces_validated_against_impl": replayed + len(traces) + len(cbehs),
         "samples": [{"behaviour": sets[0][1][len(sets[0][1]) // 2]},
                     {"sim_behaviour_head": sets[1][1][0][:12]},
                     {"trace": traces[0]}],
